@@ -50,7 +50,9 @@ func c07Extra(c *Ctx, w *prove.World, scope []*ssa.Function, inScope map[*ssa.Fu
 					}
 					r.Fail("panic", fname+": panic(...)", pos, "explicit panic reachable from a decoder entry point")
 				case *ssa.SliceToArrayPointer:
-					r.Fail("panic", fname+": slice-to-array conversion", pos, "conversion panics when the slice is shorter than the array")
+					// [N]byte(s) panics when len(s) < N: an obligation like any slice bound
+					construct := fname + ": slice-to-array conversion " + ai.render(x.Pos(), x.String())
+					c.guard("panic", construct, pos, func() { emit(r, "panic", construct, pos, w.SliceToArrayFits(x)) })
 				case *ssa.MakeSlice:
 					if _, ok := x.Len.(*ssa.Const); ok {
 						if _, ok2 := x.Cap.(*ssa.Const); ok2 || x.Cap == x.Len {
